@@ -17,8 +17,8 @@ N = 8  # script length = unwinding bound: more than (largest budget + 1) workers
 
 
 def _check(w, rc, spy, T, use_mw, fates):
-    if w.unwound:
-        return False  # the protocol started more workers than a budget of <= 6 s can pay for
+    if w.unwound or w.hung:
+        return False  # more workers than a budget of <= 6 s can pay for / the master would block forever
     k = w.started
     restarts = k - 1 if k > 0 else 0
     first_start_failed = k >= 1 and fates[0] == S.START_FAILS
